@@ -21,6 +21,7 @@ PROGRAMS = {
     "wait": "0b0300ef1306",
     "imr_on": "ccfb8f001303",
     "imr_toggle": "ccfb0000ccfb8f00130a",
+    "imr_word": "cdfa00000000cdfa008f00130d",          # MVW (FA),0000 ; NOP NOP ; MVW (FA),8F00 ; NOP ; JR start   (the mask is rewritten by a word store that begins one byte below it)
     "isr_clear": "ccfc00001306",
     "ir": "fe001304",
     "clr_halt": "ccfc00de1306",                    # MV (FC),0 ; HALT ; JR start   (a polled, masked request is acknowledged, then the CPU halts)
@@ -57,7 +58,7 @@ def code_at(cfg, addr: int) -> Optional[int]:
 
 def boundaries(cfg) -> set:
     """Instruction start addresses of the main program and the handler (all opcodes used have fixed lengths)."""
-    lens = {0x00: 1, 0x01: 1, 0x13: 2, 0xDE: 1, 0xDF: 1, 0xEF: 1, 0x0B: 3, 0xCC: 3, 0xFE: 1}
+    lens = {0x00: 1, 0x01: 1, 0x13: 2, 0xDE: 1, 0xDF: 1, 0xEF: 1, 0x0B: 3, 0xCC: 3, 0xCD: 4, 0xFE: 1}
     out = set()
     for base in (M.MAIN, M.HANDLER):
         d = cfg["rom"][base]
@@ -174,6 +175,12 @@ def monitor(impl, cfg, cname, hist, pre, ev, post, mon, vb: VB, bnds) -> Tuple:
         if lost_at_reti:
             vb.add(sig("return-clears-unserved-request"), f"{impl} {cname}: RETI cleared ISR bits {lost_at_reti:#04x} that the returning "
                    f"handler was not entered for (ISR {isr_pre:#04x}->{isr_post:#04x}) after {hist}", wit)
+        cleared = isr_pre & ~isr_post & 0x0F
+        if not lost_at_reti and bin(cleared).count("1") > 1:
+            # one delivery serves one source: when several were pending and enabled at entry, the return may acknowledge one of them,
+            # the others are still owed their own delivery
+            vb.add(sig("return-clears-several-requests"), f"{impl} {cname}: RETI cleared ISR bits {cleared:#04x} (ISR {isr_pre:#04x}->{isr_post:#04x}); "
+                   f"one handler entry serves one source, the other pending request is lost, after {hist}", wit)
         depth = max(0, depth - 1)
     # ---------------- interrupted program unaffected: registers only change by the executed instruction ---------
     if ev[0] != "step":
@@ -193,6 +200,13 @@ def monitor(impl, cfg, cname, hist, pre, ev, post, mon, vb: VB, bnds) -> Tuple:
         if lost and delivered == 0:
             vb.add(sig("pending-request-lost"), f"{impl} {cname}: ISR {isr_pre:#04x}->{isr_post:#04x} by {ev} without delivery "
                    f"(IMR={imr_pre:#04x}) after {hist}", wit)
+    # ---------------- a timer expiry is a request: it must become pending ---------------------------------------------
+    if ev[0] == "step" and delivered == 0 and depth == 0 and pre["power"] == "running" and post["power"] == "running" and cfg["timer"][0] \
+            and not pre.get("in_interrupt") and not post.get("in_interrupt") and op_pre not in (0x01, 0xFF) and not (writes_isr and op_pre == 0xCC):
+        for tname, per, key, bit in (("mti", cfg["timer"][1], "next_mti", 0x01), ("sti", cfg["timer"][2], "next_sti", 0x02)):
+            if per > 0 and key in pre and key in post and post[key] != pre[key] and not (isr_post & bit):
+                vb.add(sig(f"timer-expiry-leaves-no-request/{tname}"), f"{impl} {cname}: the {tname} target moved {pre[key]}->{post[key]} "
+                       f"(counter {pre['cycles']}->{post['cycles']}) but ISR={isr_post:#04x} has no {tname} request, after {hist}", wit)
     # ---------------- promptness -----------------------------------------------------------------------------------
     if ev[0] == "step":
         deliverable = (imr_pre & 0x80) and (imr_pre & isr_pre & 0x0F & ~stale) and depth == 0 and pre["power"] == "running"
